@@ -218,6 +218,16 @@ func (c *c26ctx) conReject(kind string, j, k uint32, oldSize, newSize uint32, ol
 
 // pool of known hashes at the current size: every hash in the store file,
 // every root so far, the two "empty" constants.
+// storeSane: the hash store holds node hashes of the tree only, never more than 2n-1 of them.  A larger file is a
+// corrupted store; it is reported (once per size) instead of being read into memory.
+func (c *c26ctx) storeSane() bool {
+	if st, err := os.Stat(c.path); err == nil && st.Size() > int64(64*(c.n+1)) {
+		c.r.Violationf("store-file:larger-than-any-tree-of-this-size", c.cs("store file", "size", c.n), "tree of %d leaves: the hash store file is %d bytes, more than 2n node hashes (%d bytes)", c.n, st.Size(), 64*(c.n+1))
+		return false
+	}
+	return true
+}
+
 func (c *c26ctx) pool(extra []common.Uint256) []common.Uint256 {
 	seen := map[common.Uint256]bool{}
 	var out []common.Uint256
@@ -226,6 +236,11 @@ func (c *c26ctx) pool(extra []common.Uint256) []common.Uint256 {
 			seen[h] = true
 			out = append(out, h)
 		}
+	}
+	// the hash store holds node hashes of the tree only: never more than 2n-1 of them (a larger file is a
+	// corrupted store; it is reported instead of being read)
+	if !c.storeSane() {
+		return nil
 	}
 	b, err := ioutil.ReadFile(c.path)
 	c.r.Need(err == nil, "read store file: %v", err)
@@ -551,6 +566,9 @@ func (c *c26ctx) continueFrom(tag string, size uint32, more [][]byte) {
 func (c *c26ctx) checkSize(tree *CompactMerkleTree) {
 	r := c.r
 	n := c.n
+	if !c.storeSane() {
+		return
+	}
 	pool := c.pool(nil)
 	// (1) all single mutations of the proofs that end at this size
 	for m := uint32(0); m < n; m++ {
